@@ -43,7 +43,7 @@ Lemma equiv_c_seq : forall cfg i els j els' par pref,
   equiv_c cfg (NSeq i els) (NSeq j els') par pref =
   tag_eqb (tag i) (tag j) &&
   match cfg_list_mode cfg (NSeq j els', par, pref) els' with
-  | Some (LPos true) => forall2i (fun n x y => equiv_c cfg x y (Some (NSeq j els')) (pidx (S n))) 0 els els'
+  | Some (LPos true) => forall2i (fun n x y => equiv_c cfg x y (Some (NSeq j els')) (pidx n)) 0 els els'
   | Some (LPos false) => forall2b data_eq els els'
   | Some LValue => bag_eqb data_eq els els'
   | Some (LKey d) => keyed_eqc cfg (NSeq j els') d els els'
@@ -82,7 +82,7 @@ Proof. reflexivity. Qed.
 Lemma kguard_c_seq : forall cfg i els j els' par pref,
   kguard_c cfg (NSeq i els) (NSeq j els') par pref =
   match cfg_list_mode cfg (NSeq j els', par, pref) els' with
-  | Some (LPos true) => zipalli (fun n x y => kguard_c cfg x y (Some (NSeq j els')) (pidx (S n))) 0 els els'
+  | Some (LPos true) => zipalli (fun n x y => kguard_c cfg x y (Some (NSeq j els')) (pidx n)) 0 els els'
   | Some (LPos false) => true
   | Some LValue => kvalue_c cfg (NSeq j els') els (enumerate els')
   | Some (LKey d) => keyed_pair cfg (NSeq j els') els els' &&
@@ -640,9 +640,9 @@ Section IffC.
     rec_iffc rec ->
     forall lels idx rels a a',
       (forall x, In x lels -> okd x) -> (forall y, In y rels -> okd y) ->
-      (deep = true -> zipalli (fun n x y => kguard_c cfg x y (Some r0) (pidx (S n))) idx lels rels = true) ->
+      (deep = true -> zipalli (fun n x y => kguard_c cfg x y (Some r0) (pidx n)) idx lels rels = true) ->
       zip_go rec deep path q r0 idx lels rels a = Ok a' ->
-      SD a' = SD a || negb (if deep then forall2i (fun n x y => E x y (Some r0) (pidx (S n))) idx lels rels
+      SD a' = SD a || negb (if deep then forall2i (fun n x y => E x y (Some r0) (pidx n)) idx lels rels
                             else forall2b data_eq lels rels).
   Proof.
     intros rec deep path q r0 Hrec.
@@ -650,15 +650,15 @@ Section IffC.
     - inversion H; subst. rewrite SD_news by (intros; reflexivity).
       destruct rels, deep; simpl; rewrite ?orb_false_r, ?orb_true_r; reflexivity.
     - destruct rels as [|re rr].
-      + assert (HG0 : deep = true -> zipalli (fun n x y => kguard_c cfg x y (Some r0) (pidx (S n))) (S idx) lr [] = true).
+      + assert (HG0 : deep = true -> zipalli (fun n x y => kguard_c cfg x y (Some r0) (pidx n)) (S idx) lr [] = true).
         { intros _. destruct lr; reflexivity. }
         rewrite (IH (S idx) [] _ _ (fun x Hx => OL x (or_intror Hx)) OR HG0 H).
         rewrite SD_cons. simpl. destruct deep; rewrite orb_true_r; reflexivity.
       + match type of H with (bind ?F _ = _) => destruct F as [a1| |] eqn:EF end; simpl in H; try discriminate.
-        assert (HG1 : deep = true -> zipalli (fun n x y => kguard_c cfg x y (Some r0) (pidx (S n))) (S idx) lr rr = true).
+        assert (HG1 : deep = true -> zipalli (fun n x y => kguard_c cfg x y (Some r0) (pidx n)) (S idx) lr rr = true).
         { intros Hd. specialize (HG Hd). simpl in HG. apply andb_true_iff in HG. tauto. }
         rewrite (IH (S idx) rr _ _ (fun x Hx => OL x (or_intror Hx)) (fun x Hx => OR x (or_intror Hx)) HG1 H).
-        assert (St : SD a1 = SD a || negb (if deep then E le re (Some r0) (pidx (S idx)) else data_eq le re)).
+        assert (St : SD a1 = SD a || negb (if deep then E le re (Some r0) (pidx idx) else data_eq le re)).
         { destruct deep.
           - eapply Hrec; [ | | | exact EF]; [apply OL; left; reflexivity | apply OR; left; reflexivity |].
             specialize (HG eq_refl). simpl in HG. apply andb_true_iff in HG. tauto.
@@ -1035,6 +1035,34 @@ Proof.
     + specialize (Ha (ints 110 [3; 1; 2]%Z, Some (xy_doc 100 [3; 1; 2]%Z [1; 2; 3]%Z), PStr "x")). vm_compute in Ha. discriminate.
     + specialize (Ha (ints 120 [1; 2; 3]%Z, Some (xy_doc 100 [3; 1; 2]%Z [1; 2; 3]%Z), PStr "y")). vm_compute in Ha. discriminate.
   - repeat split; try (vm_compute; reflexivity); eexists; split; vm_compute; reflexivity.
+Qed.
+
+(* a rule naming a list nested DIRECTLY inside a positionally compared list
+   ([rules] /a[0] = value on a: [[..], [..]]) is honoured: a[0] is compared by
+   value, a[1] by position.  Before the repair of the stale parentref
+   (`idx` after `idx += 1`) the rule was looked up under index 1 and ignored. *)
+Definition nest_doc (o : N) (xs ys : list Z) : node :=
+  NMap (ci o) [(pl_leaf (o + 1) (PStr "a"), NSeq (ci (o + 2)) [ints (o + 10) xs; ints (o + 20) ys])].
+Definition nest_cfg (R : node) : dcfg :=
+  match R with
+  | NMap _ ((_, NSeq i (x :: r)) :: _) =>
+      mkdcfg true [mkrule x (Some (NSeq i (x :: r))) (PInt 0) "value"] [] None None None None
+  | _ => mkdcfg true [] [] None None None None
+  end.
+Lemma nested_rule_example :
+  let L := nest_doc 0 [1; 2; 3]%Z [4; 5; 6]%Z in
+  let R := nest_doc 100 [3; 1; 2]%Z [4; 5; 6]%Z in
+  let R' := nest_doc 100 [1; 2; 3]%Z [6; 4; 5]%Z in
+  (wf_doc L = true /\ wf_doc R = true /\ wf_doc R' = true) /\
+  c_rules (nest_cfg R) <> [] /\
+  kguard_c (nest_cfg R) L R None PNone = true /\
+  equiv_c (nest_cfg R) L R None PNone = true /\ data_eq L R = false /\
+  (exists es, compare_to path_eq_real (nest_cfg R) L R = Ok es /\ shows_difference es = false) /\
+  equiv_c (nest_cfg R') L R' None PNone = false /\
+  (exists es, compare_to path_eq_real (nest_cfg R') L R' = Ok es /\ shows_difference es = true).
+Proof.
+  cbv zeta. split; [repeat split; vm_compute; reflexivity|]. split; [vm_compute; discriminate|].
+  repeat split; try (vm_compute; reflexivity); eexists; split; vm_compute; reflexivity.
 Qed.
 
 (* [keys] /r = name: the records share the first key's value (id), so the default
